@@ -36,6 +36,19 @@ thread_local! {
     static CENSUS: RefCell<Vec<CensusEntry>> = RefCell::new(Vec::new());
     static CENSUS_FROM: Cell<bool> = Cell::new(false);
     static OPS: Cell<u64> = Cell::new(0);
+    static PI_SKEW: Cell<f64> = Cell::new(0.0);
+    static PI_CALLS: Cell<u64> = Cell::new(0);
+}
+
+/// Make `Tracked::PI()` return pi*(1+skew): a user type whose constant differs (as any
+/// higher-precision pi differs from the f64 one, only visibly). Code that builds 2*pi from an
+/// f64 literal instead of the user's PI() then produces observably different angles.
+pub fn tracked_set_pi_skew(skew: f64) {
+    PI_SKEW.with(|c| c.set(skew));
+    PI_CALLS.with(|c| c.set(0));
+}
+pub fn tracked_pi_calls() -> u64 {
+    PI_CALLS.with(|c| c.get())
 }
 
 pub fn tracked_reset(record_from_f64: bool) {
@@ -162,7 +175,8 @@ impl MomTropFloat for Tracked {
     }
     #[allow(non_snake_case)]
     fn PI(&self) -> Self {
-        Tracked::plain(std::f64::consts::PI)
+        PI_CALLS.with(|c| c.set(c.get() + 1));
+        Tracked::plain(std::f64::consts::PI * (1.0 + PI_SKEW.with(|c| c.get())))
     }
     fn powf(&self, p: &Self) -> Self {
         op();
